@@ -176,10 +176,13 @@ var c20InitOnce sync.Once
 var c20InitHash map[string][32]byte
 
 func verifC20Sys(id string, seed int64) *verifSys {
+	// id: "T<n>/k<digits>": n threads running the scripts of the given kinds
 	var nt int
-	if _, err := fmt.Sscanf(id, "T%d", &nt); err != nil {
+	var kinds string
+	if _, err := fmt.Sscanf(id, "T%d/k%s", &nt, &kinds); err != nil || len(kinds) != nt {
 		return nil
 	}
+	kindOf := func(k int) int { return int(kinds[k] - '0') }
 	// one worker: the subject is process-wide state, parallel workers would disturb each other
 	sys := &verifSys{Prop: "C20", ID: id, Seed: seed, Workers: 1}
 	var solo [][]string
@@ -188,12 +191,12 @@ func verifC20Sys(id string, seed int64) *verifSys {
 		m := &monC20{}
 		solo = nil
 		for k := 0; k < nt; k++ {
-			solo = append(solo, c20Solo(seed, k))
-			steps := c20Script(k)
+			solo = append(solo, c20Solo(seed, kindOf(k)))
+			steps := c20Script(kindOf(k))
 			if nt > 2 {
 				steps = steps[:verifMin(len(steps), 14)]
 			}
-			m.T = append(m.T, &c20Thread{W: c20World(seed, k), Steps: steps})
+			m.T = append(m.T, &c20Thread{W: c20World(seed, kindOf(k)), Steps: steps})
 		}
 		return &verifWorld{Mon: m}
 	}
@@ -303,9 +306,9 @@ func init() {
 		Run: func(r *verifReport) {
 			r.Rule = "threads = independent scripted conversation pairs (handshake by query or whitespace tag, texts with rotation, OTR error, SMP, fragmentation, extra key, End; different versions and policies per thread); ALL interleavings of their API calls (2 threads with full scripts, 3 threads with shortened ones) are executed on the real code, states matched on (positions, every thread's world); after EVERY step every package-level variable of package otr3 (list generated from the working tree) is compared bit for bit — deep, slices to full capacity — with its value after init, and the step's observable result (plaintext, error, events, hashes of emitted bytes) with the same step of the script run alone. Because conversations can only meet in package-level state, 'no step ever modifies it' implies that steps of different conversations commute at any granularity. Separately the same scripts run free on 16 goroutines under the race detector (sampling, corroboration only)"
 			r.Assumptions = []string{"a write to package-level state that is undone before the API call returns would escape the before/after comparison (the race-detector pass is what looks below API granularity, by sampling)", "memory-model effects below sequential consistency are not modelled"}
-			ids := []string{"T2"}
+			ids := []string{"T2/k01", "T2/k20"}
 			if r.Tier == "thorough" {
-				ids = []string{"T2", "T3"}
+				ids = []string{"T2/k01", "T2/k20", "T2/k12", "T2/k22", "T3/k012"}
 			}
 			for _, id := range ids {
 				r.explore(verifC20Sys(id, r.Seed))
